@@ -102,6 +102,8 @@ def run(prop, tier):
         p = os.path.join(scratch.dir, "events.md")
         open(p, "wb").write(r.stdout)
         listed = catalog.load_events(p)
+        if sum(len(d["events"]) for d in listed.values()) < 100 or len(listed) < 8:
+            raise InfraError("cannot parse the output of ovnievents (format changed?): %d models" % len(listed))
         legacy = set(catalog.golden("legacy_codes.json")["accepted_with_warning"])
         # (D) the tool's list and the documentation name the same events
         for m in sorted(set(doc) | set(listed)):
